@@ -24,10 +24,17 @@ class Script:
         self.calls = []
         self.solves = 0
 
+    inplace = False
+
     def fun(self, x, *a):
         k = len(self.calls)
         f = self.h.vec(f"{self.tag}f{k}_", self.n)
         self.calls.append((np.array(x, dtype=object if self.h.sym else float).copy(), f))
+        if self.inplace:
+            # a map that overwrites its argument and returns it (as the solver's own step maps do)
+            for i in range(self.n):
+                x[i] = f[i]
+            return x
         return f
 
     def solve(self, *a):
@@ -87,11 +94,14 @@ def fsolve_contract(h, n=1, mode="exact", max_iter=2):
     h.holds("function evaluations counted", int(res.nfev) == len(sc.calls))
 
 
-def fixed_point_contract(h, n=1, which="plain", max_iter=2):
+def fixed_point_contract(h, n=1, which="plain", max_iter=2, inplace=False):
     import cardillo.solver.dual_stormer_verlet as D
     sc = Script(h, n, "")
+    sc.inplace = inplace
     atol, rtol = h.pos("atol"), h.pos("rtol")
     x0 = h.vec("x0_", n)
+    if inplace and h.sym:
+        x0 = np.array(list(x0), dtype=object)
     f = D.fixed_point_iteration if which == "plain" else D.fixed_point_iteration_with_momentum
     raised = None
     try:
@@ -156,6 +166,7 @@ def cases(tier, seed):
         for which in ("plain", "momentum"):
             for m in range(1, 4):
                 cs.append(Case(f"fixed_point/{which}/n{n}/maxit{m}", fixed_point_contract, dict(n=n, which=which, max_iter=m), timeout=T, max_paths=128, sentinel=False))
+            cs.append(Case(f"fixed_point/{which}/n{n}/maxit2/inplace_map", fixed_point_contract, dict(n=n, which=which, max_iter=2, inplace=True), timeout=T, max_paths=128, sentinel=False))
     for kind in ("quadratic", "matrix"):
         for method in ("2-point", "3-point"):
             cs.append(Case(f"approx_fprime/{kind}/{method}", fprime, dict(kind=kind, method=method), timeout=T))
